@@ -343,3 +343,7 @@ mod tests {
         Ok(())
     }
 }
+
+#[cfg(kani)]
+#[path = "/verif/harness/bam/encoder.rs"]
+pub(crate) mod verif_kani;
